@@ -201,7 +201,7 @@ class World:
             'PROPAGATE_EXCEPTIONS': bool(propagate),
             'LOG_LEVEL': 'critical',
             'PREFERRED_URL_SCHEME': 'http',
-            'JWT_SECRET_KEY': 'jwt.secret',
+            'JWT_SECRET_KEY': 'jwt.secret.for.the.verification.world.0123456789',
         }
         self.app = create_app(config=config, instance_path=str(self.tmp / 'instance'),
                               create_default_user=False, wss=False)
